@@ -807,7 +807,9 @@ impl LocalPeerService {
             )
             .await;
         while let Some(edge_deletion) = edge_deletion_recv.recv().await {
-            let edge_deletion = edge_deletion?;
+            let mut edge_deletion = edge_deletion?;
+            //the answer to a query on a room only contains records of that room
+            edge_deletion.retain(|deletion| deletion.room_id.eq(&room_id));
             if !edge_deletion.is_empty() {
                 has_changes = true;
                 let edge_deletion = discret_services
@@ -829,7 +831,8 @@ impl LocalPeerService {
             )
             .await;
         while let Some(node_deletion) = node_deletion_recv.recv().await {
-            let node_deletion = node_deletion?;
+            let mut node_deletion = node_deletion?;
+            node_deletion.retain(|deletion| deletion.room_id.eq(&room_id));
             if !node_deletion.is_empty() {
                 has_changes = true;
                 let node_deletion = discret_services
